@@ -22,6 +22,10 @@ pub const PITABLE: [u8; 256] = [
 /// Key expansion: `key[..t]` is the supplied key (1 <= t <= 128), `t1` the effective key length in bits
 /// (1 <= t1 <= 1024).  Returns K[0..63] with K[i] = L[2i] + 256*L[2i+1].
 pub fn expand_key(key: &[u8; 128], t: usize, t1: usize) -> [u16; 64] {
+    expand_key_with(key, t, t1, |i| PITABLE[i as usize])
+}
+/// The same with the PITABLE look-up as a parameter.
+pub fn expand_key_with<P: FnMut(u8) -> u8>(key: &[u8; 128], t: usize, t1: usize, mut pi: P) -> [u16; 64] {
     let t8 = (t1 + 7) / 8;
     // TM = 255 MOD 2^(8 + T1 - 8*T8)
     let tm = (255u32 % (1u32 << (8 + t1 - 8 * t8))) as u8;
@@ -34,16 +38,16 @@ pub fn expand_key(key: &[u8; 128], t: usize, t1: usize) -> [u16; 64] {
     // for i = T, T+1, ..., 127 do L[i] = PITABLE[L[i-1] + L[i-T]] (addition mod 256)
     i = t;
     while i <= 127 {
-        l[i] = PITABLE[((l[i - 1] as u32 + l[i - t] as u32) & 255) as usize];
+        l[i] = pi(((l[i - 1] as u32 + l[i - t] as u32) & 255) as u8);
         i += 1;
     }
     // L[128-T8] = PITABLE[L[128-T8] & TM]
-    l[128 - t8] = PITABLE[(l[128 - t8] & tm) as usize];
+    l[128 - t8] = pi(l[128 - t8] & tm);
     // for i = 127-T8 down to 0 do L[i] = PITABLE[L[i+1] XOR L[i+T8]]
     i = 128 - t8;
     while i > 0 {
         i -= 1;
-        l[i] = PITABLE[(l[i + 1] ^ l[i + t8]) as usize];
+        l[i] = pi(l[i + 1] ^ l[i + t8]);
     }
     let mut k = [0u16; 64];
     i = 0;
